@@ -31,7 +31,205 @@ theorem loop_ok_iff (apply : M → Bytes → Option M) (ms : List Member) (e : E
     have h1 := nMeta_ne_nState
     have h2 := nMeta_ne_nSums
     have h3 := nState_ne_nSums
-    simp_all [Clean, cat, metas, foldApply, List.filter_cons]
+    simp_all [Clean, cat, metas, foldApply]
     try grind
+
+/-! ### `DecodeAndVerify` -/
+
+/-- generalised over the two "seen" flags -/
+theorem checkLines_ok_iff (hm hs : Bytes) (ls : List Bytes) (sm ss : Bool) :
+    checkLines hm hs ls sm ss = .ok () ↔
+      ∃ es, parseLines ls = some es ∧ (∀ e ∈ es, e = (hm, nMeta) ∨ e = (hs, nState)) ∧
+        (sm = true ∨ (hm, nMeta) ∈ es) ∧ (ss = true ∨ (hs, nState) ∈ es) := by
+  fun_induction checkLines hm hs ls sm ss
+  all_goals
+    have h1 := nMeta_ne_nState
+    simp_all [parseLines]
+    try grind
+
+theorem verify_ok_iff (H : Bytes → Bytes) (a : Acc M) :
+    verify H a = .ok () ↔ SumsOK (H a.metaB) (H a.stateB) a.sumsB := by
+  simp [verify, SumsOK, parseSums, checkLines_ok_iff]
+
+/-- `read` accepts exactly the streams that end cleanly, consist of complete members with the
+    three known names, whose meta.json payloads all decode, and whose SHA256SUMS text lists
+    exactly the digests of the concatenated meta.json and state.bin payloads. -/
+theorem readStream_ok_iff (H : Bytes → Bytes) (apply : M → Bytes → Option M) (m0 m : M)
+    (s : Stream) (st : Bytes) :
+    readStream H apply m0 s = .ok (m, st) ↔
+      s.ending = .eof ∧ Clean s.members ∧ foldApply apply m0 (metas s.members) = some m ∧
+      st = cat nState s.members ∧
+      SumsOK (H (cat nMeta s.members)) (H (cat nState s.members)) (cat nSums s.members) := by
+  unfold readStream
+  cases hl : loop apply s.members s.ending ⟨m0, [], [], []⟩ with
+  | error e =>
+    simp only [reduceCtorEq, false_iff]
+    intro ⟨he, hc, hf, hst, hs⟩
+    have := (loop_ok_iff apply s.members s.ending ⟨m0, [], [], []⟩
+      ⟨m, cat nMeta s.members, cat nState s.members, cat nSums s.members⟩).mpr
+      ⟨he, hc, hf, by simp, by simp, by simp⟩
+    rw [hl] at this; cases this
+  | ok a =>
+    obtain ⟨he, hc, hf, hm, hs, hu⟩ := (loop_ok_iff apply s.members s.ending _ a).mp hl
+    simp only [List.nil_append] at hm hs hu
+    cases hv : verify H a with
+    | error e =>
+      simp only [hv, reduceCtorEq, false_iff]
+      intro ⟨_, _, _, _, hso⟩
+      have := (verify_ok_iff H a).mpr (by rw [hm, hs, hu]; exact hso)
+      rw [hv] at this; cases this
+    | ok u =>
+      have hso := (verify_ok_iff H a).mp (by rw [hv])
+      rw [hm, hs, hu] at hso
+      simp only [hv, Except.ok.injEq, Prod.mk.injEq]
+      constructor
+      · rintro ⟨rfl, rfl⟩
+        exact ⟨he, hc, hf, hs, hso⟩
+      · rintro ⟨_, _, hf', hst, _⟩
+        rw [hf] at hf'
+        exact ⟨Option.some.inj hf', by rw [hst, hs]⟩
+
+/-! ### `hashList.Encode` output scans back (`Sscanf` ∘ `Fprintf`) -/
+
+theorem hexVal_hexChar (n : Nat) (h : n < 16) : hexVal (hexChar n) = some n := by
+  unfold hexVal hexChar
+  split <;> split <;> first | (simp; omega) | (split <;> first | (simp; omega) | omega)
+
+theorem hexChar_range (n : Nat) (h : n < 16) : 48 ≤ hexChar n ∧ hexChar n ≤ 102 := by
+  unfold hexChar; split <;> omega
+
+theorem spaceWidth_ascii (b : Nat) (rest : Bytes) (h1 : 33 ≤ b) (h2 : b < 128) :
+    spaceWidth (b :: rest) = 0 := by
+  unfold spaceWidth
+  have : ¬ ((9 ≤ b ∧ b ≤ 13) ∨ b = 32) := by omega
+  have a1 : b ≠ 0xC2 := by omega
+  have a2 : b ≠ 0xE1 := by omega
+  have a3 : b ≠ 0xE2 := by omega
+  have a4 : b ≠ 0xE3 := by omega
+  simp [this, a1, a2, a3, a4]
+
+theorem skipSpaces_of_width0 (l : Bytes) (h : spaceWidth l = 0) : skipSpaces l = l := by
+  cases l with
+  | nil => simp [skipSpaces, skipAux]
+  | cons b rest => simp [skipSpaces, skipAux, h]
+
+theorem hexPairs_nonhex (c : Nat) (r : Bytes) (h : hexVal c = none) :
+    hexPairs (c :: r) = some ([], c :: r) := by
+  cases r with
+  | nil => simp [hexPairs, h]
+  | cons c2 r2 => simp [hexPairs, h]
+
+theorem hexPairs_hexEnc (d : Bytes) (hd : ∀ b ∈ d, b < 256) (c : Nat) (r : Bytes)
+    (h : hexVal c = none) : hexPairs (hexEnc d ++ c :: r) = some (d, c :: r) := by
+  induction d with
+  | nil => simpa [hexEnc] using hexPairs_nonhex c r h
+  | cons b bs ih =>
+    have hb : b < 256 := hd b (List.mem_cons_self ..)
+    have ih' := ih (fun x hx => hd x (List.mem_cons_of_mem _ hx))
+    have e1 := hexVal_hexChar (b / 16) (by omega)
+    have e2 := hexVal_hexChar (b % 16) (by omega)
+    simp only [hexEnc, List.cons_append, hexPairs, e1, e2, ih']
+    have : b / 16 * 16 + b % 16 = b := by omega
+    simp [this]
+
+theorem hexEnc_length (d : Bytes) : (hexEnc d).length = 2 * d.length := by
+  induction d with
+  | nil => rfl
+  | cons b bs ih => simp [hexEnc, ih]; omega
+
+theorem hexEnc_no_nl (d : Bytes) (hd : ∀ b ∈ d, b < 256) : (10 : Nat) ∉ hexEnc d := by
+  induction d with
+  | nil => simp [hexEnc]
+  | cons b bs ih =>
+    have hb : b < 256 := hd b (List.mem_cons_self ..)
+    have r1 := hexChar_range (b / 16) (by omega)
+    have r2 := hexChar_range (b % 16) (by omega)
+    have ih' := ih (fun x hx => hd x (List.mem_cons_of_mem _ hx))
+    simp only [hexEnc, List.mem_cons, not_or]
+    exact ⟨by omega, by omega, ih'⟩
+
+/-- one encoded line, without its newline, scans back to the digest and the name -/
+theorem scanLine_encoded (d nm : Bytes) (hd : DigestOK d) (hn : nm = nMeta ∨ nm = nState) :
+    scanLine (hexEnc d ++ ([32, 32] ++ nm)) = some (d, nm) := by
+  obtain ⟨hlen, hb⟩ := hd
+  have hp := hexPairs_hexEnc d hb 32 (32 :: nm) (by decide)
+  have hne : d ≠ [] := by intro h; rw [h] at hlen; simp at hlen
+  -- the line starts with a hex digit, so nothing is skipped
+  have hskip : skipSpaces (hexEnc d ++ ([32, 32] ++ nm)) = hexEnc d ++ ([32, 32] ++ nm) := by
+    apply skipSpaces_of_width0
+    cases d with
+    | nil => exact absurd rfl hne
+    | cons b bs =>
+      have hb' : b < 256 := hb b (List.mem_cons_self ..)
+      have r1 := hexChar_range (b / 16) (by omega)
+      simp only [hexEnc, List.cons_append]
+      exact spaceWidth_ascii _ _ (by omega) (by omega)
+  have hne2 : hexEnc d ++ ([32, 32] ++ nm) ≠ [] := by simp
+  unfold scanLine
+  simp only [hskip, hne2, if_false]
+  simp only [List.cons_append, List.nil_append] at hp ⊢
+  rw [hp]
+  simp only [hne, if_false]
+  rcases hn with rfl | rfl <;> decide
+
+theorem dropCR_encoded (x nm : Bytes) (hn : nm = nMeta ∨ nm = nState) :
+    dropCR (x ++ ([32, 32] ++ nm)) = x ++ ([32, 32] ++ nm) := by
+  unfold dropCR
+  rcases hn with rfl | rfl <;> simp [nMeta, nState, List.getLast?_append]
+
+theorem splitAux_line (l rest cur : Bytes) (h : (10 : Nat) ∉ l) :
+    splitAux (l ++ 10 :: rest) cur = (cur.reverse ++ l) :: splitAux rest [] := by
+  induction l generalizing cur with
+  | nil => simp [splitAux]
+  | cons b bs ih =>
+    have hb : b ≠ 10 := by intro e; apply h; simp [e]
+    have hbs : (10 : Nat) ∉ bs := by intro e; apply h; simp [e]
+    simp [splitAux, hb, ih _ hbs]
+
+theorem name_no_nl (nm : Bytes) (hn : nm = nMeta ∨ nm = nState) : (10 : Nat) ∉ ([32, 32] ++ nm) := by
+  rcases hn with rfl | rfl <;> decide
+
+theorem parseSums_line (d nm : Bytes) (hd : DigestOK d) (hn : nm = nMeta ∨ nm = nState) (rest : Bytes) :
+    parseSums (sumsLine d nm ++ rest) = (parseSums rest).map ((d, nm) :: ·) := by
+  have hnl : (10 : Nat) ∉ hexEnc d ++ ([32, 32] ++ nm) := by
+    intro h
+    rcases List.mem_append.mp h with h | h
+    · exact hexEnc_no_nl d hd.2 h
+    · exact name_no_nl nm hn h
+  have hsplit : splitLines (sumsLine d nm ++ rest) = (hexEnc d ++ ([32, 32] ++ nm)) :: splitLines rest := by
+    have := splitAux_line (hexEnc d ++ ([32, 32] ++ nm)) rest [] hnl
+    simp only [List.reverse_nil, List.nil_append] at this
+    simp only [splitLines, sumsLine]
+    rw [← this]
+    simp
+  have hlen : ¬ 65536 ≤ (hexEnc d ++ ([32, 32] ++ nm)).length := by
+    have := hexEnc_length d
+    rcases hn with rfl | rfl <;> simp [this, hd.1, nMeta, nState]
+  unfold parseSums
+  rw [hsplit]
+  simp only [parseLines, hlen, if_false, dropCR_encoded _ _ hn, scanLine_encoded d nm hd hn]
+  cases parseLines (splitLines rest) <;> simp
+
+theorem parseSums_nil : parseSums [] = some [] := by
+  simp [parseSums, splitLines, splitAux, parseLines]
+
+/-- what `write` puts into SHA256SUMS parses to exactly the two entries, in either map order -/
+theorem parseSums_encodeSums (swap : Bool) (hm hs : Bytes) (h1 : DigestOK hm) (h2 : DigestOK hs) :
+    parseSums (encodeSums swap hm hs) =
+      some (if swap then [(hs, nState), (hm, nMeta)] else [(hm, nMeta), (hs, nState)]) := by
+  have e : ∀ (d nm : Bytes), sumsLine d nm = sumsLine d nm ++ [] := by simp
+  cases swap
+  · simp only [encodeSums, Bool.false_eq_true, if_false]
+    rw [parseSums_line hm nMeta h1 (Or.inl rfl), e hs nState, parseSums_line hs nState h2 (Or.inr rfl),
+      parseSums_nil]
+    rfl
+  · simp only [encodeSums, if_true]
+    rw [parseSums_line hs nState h2 (Or.inr rfl), e hm nMeta, parseSums_line hm nMeta h1 (Or.inl rfl),
+      parseSums_nil]
+    rfl
+
+theorem sumsOK_encodeSums (swap : Bool) (hm hs : Bytes) (h1 : DigestOK hm) (h2 : DigestOK hs) :
+    SumsOK hm hs (encodeSums swap hm hs) := by
+  refine ⟨_, parseSums_encodeSums swap hm hs h1 h2, ?_, ?_, ?_⟩ <;> cases swap <;> simp
 
 end CV.Tar
